@@ -26,6 +26,8 @@
  *          Each tag/ref combination is called a data identifier (DI).
  *---------------------------------------------------------------------------*/
 
+#include <limits.h>
+
 #include "hdf_priv.h"
 #include "hfile_priv.h"
 
@@ -191,6 +193,10 @@ int32
 DFdisetup(int maxsize)
 {
     DIlist_ptr new_list;
+
+    /* the list holds maxsize tag/ref pairs of 4 bytes: the byte count must fit an int */
+    if (maxsize < 0 || maxsize > INT_MAX / 4)
+        HRETURN_ERROR(DFE_ARGS, FAIL);
 
     new_list = (DIlist_ptr)malloc((uint32)sizeof(DIlist));
 
